@@ -14,7 +14,7 @@ type GenCfg struct {
 	MaxParts     int      // cap on parts per level
 	MaxDepth     int      // collection nesting
 	PEmpty       float64  // probability that a component is empty
-	FloatMode    int      // 0 small, 1 any bits, 2 finite (no NaN/Inf)
+	FloatMode    int      // 0 small, 1 any bits, 2 finite (no NaN/Inf), 3 finite and moderate (|v| in [2^-40, 2^40] or small: products cannot overflow)
 	SRIDMode     int      // 0 none, 1 interesting values
 	MixLayout    bool     // collection members may differ in layout
 	ClosedRings  bool     // rings are closed with >= 4 points when non-empty
@@ -75,6 +75,17 @@ func (c GenCfg) float(r *prng.Rand) F {
 				return F(v)
 			}
 		}
+	}
+	if c.FloatMode == 3 && r.Chance(0.6) {
+		// a random mantissa at a moderate exponent: sums and products of such
+		// values round (they are not dyadic fractions of small integers) and
+		// cannot overflow
+		m := math.Float64frombits(0x3ff0000000000000 | r.Uint64()&0x000fffffffffffff) // [1, 2)
+		v := math.Ldexp(m, r.Range(-40, 40))
+		if r.Chance(0.5) {
+			v = -v
+		}
+		return F(v)
 	}
 	return F(r.SmallFloat())
 }
@@ -338,6 +349,46 @@ func DecorateSRIDs(r *prng.Rand, m *Geom, p float64) {
 	for _, c := range m.G {
 		DecorateSRIDs(r, c, p)
 	}
+}
+
+// BigOfType returns a geometry of type t (not a collection) and layout l with
+// about n coordinates in two or three parts (where the type has parts): sizes
+// at which a library may switch to a blocked or parallel path.
+func (c GenCfg) BigOfType(r *prng.Rand, t string, l int, n int) *Geom {
+	cs := func(k int, ring bool) []Coord {
+		out := make([]Coord, 0, k+1)
+		for i := 0; i < k; i++ {
+			out = append(out, c.coord(r, l))
+		}
+		if ring && k > 0 {
+			out = append(out, append(Coord(nil), out[0]...))
+		}
+		return out
+	}
+	parts := r.Range(2, 3)
+	switch t {
+	case LS, LR:
+		return &Geom{T: t, L: l, P: [][][]Coord{{cs(n, t == LR)}}}
+	case MPt:
+		pts := make([][]Coord, n)
+		for i := range pts {
+			pts[i] = []Coord{c.coord(r, l)}
+		}
+		return &Geom{T: MPt, L: l, P: [][][]Coord{pts}}
+	case Pg, MLS:
+		var ps [][]Coord
+		for i := 0; i < parts; i++ {
+			ps = append(ps, cs(n/parts, t == Pg))
+		}
+		return &Geom{T: t, L: l, P: [][][]Coord{ps}}
+	case MPg:
+		var pgs [][][]Coord
+		for i := 0; i < parts; i++ {
+			pgs = append(pgs, [][]Coord{cs(n/parts-10, true), cs(9, true)})
+		}
+		return &Geom{T: MPg, L: l, P: pgs}
+	}
+	return c.Gen(r, t, l, 0)
 }
 
 // GenAny draws a geometry of a random allowed type and layout, with an SRID on
